@@ -1,4 +1,6 @@
 import RosuModel.Lemmas.GradualOsu
+import RosuModel.Lemmas.GradualCatch
+import RosuModel.Lemmas.GradualMania
 
 /-!
 # C15 — gradual calculators obey the iterator protocol
@@ -46,34 +48,6 @@ theorem osu_reachable (sk : Skills S) (objs : List OsuObj) (ops : List Op) :
 theorem osu_len_eq_remaining (sk : Skills S) (objs : List OsuObj) (g : OsuGrad S) (i : Nat)
     (hc : OsuCanon sk objs g i) :
     (osuMachine sk objs).len g = some (objs.length - i) := osuLen_spec sk objs g i hc
-
-/-- From a canonical state, `k ≤ remaining` calls of `next` yield the next `k` values. -/
-theorem osu_nexts_spec (sk : Skills S) (objs : List OsuObj) (k : Nat) (g : OsuGrad S) (i : Nat)
-    (hc : OsuCanon sk objs g i) (hk : i + k ≤ objs.length) :
-    ((osuMachine sk objs).nexts g k).1 = (List.range k).map (fun d => Res.some (osuValue sk objs (i + d + 1))) ∧
-    OsuCanon sk objs ((osuMachine sk objs).nexts g k).2 (i + k) := by
-  induction k generalizing g i with
-  | zero => simpa [Machine.nexts] using hc
-  | succ k ih =>
-    have hlt : i < objs.length := by omega
-    obtain ⟨hv, hc'⟩ := (osuNext_spec sk objs g i hc).1 hlt
-    have ih' := ih _ (i + 1) hc' (by omega)
-    simp only [Machine.nexts]
-    have hn : (osuMachine sk objs).next g = (Res.some (osuValue sk objs (i + 1)), (osuNext sk objs g).2) := by
-      simp [osuMachine, hv, optToRes]
-    rw [hn]
-    refine ⟨?_, ?_⟩
-    · simp only
-      rw [ih'.1, List.range_succ_eq_map]
-      simp only [List.map_cons, List.map_map, Nat.add_zero]
-      congr 1
-      apply List.map_congr_left
-      intro d _
-      simp only [Function.comp]
-      congr 2
-      omega
-    · have e : i + (k + 1) = i + 1 + k := by omega
-      rw [e]; exact ih'.2
 
 /-- Once exhausted, every further `next`/`nth` returns `None` (and never panics) and the state
 stays exhausted. -/
@@ -149,6 +123,197 @@ theorem osu_never_panics (sk : Skills S) (objs : List OsuObj) (ops : List Op) (k
   · rw [((osu_nth_processes_min sk objs g i k hc).1 hlt).1]; simp
   · have heq : i = objs.length := by have := hc.le; omega
     rw [(osu_nth_processes_min sk objs g i k hc).2 heq]; simp
+
+
+/-! ## osu!catch (`recs` = the gradual records, one per palpable object) -/
+
+theorem catch_reachable (sk : Skills S) (recs : List CatchRec) (ops : List Op) :
+    ∃ i, CatchCanon sk recs ((catchMachine sk recs (recs.length - 1)).exec (catchNew sk) ops) i := by
+  suffices h : ∀ (g : CatchGrad S) (i : Nat), CatchCanon sk recs g i →
+      ∃ j, CatchCanon sk recs ((catchMachine sk recs (recs.length - 1)).exec g ops) j from
+    h _ 0 (catchNew_canon sk recs)
+  induction ops with
+  | nil => intro g i hc; exact ⟨i, hc⟩
+  | cons op ops ih =>
+    intro g i hc
+    have hle := hc.le
+    cases op with
+    | next =>
+      rcases Nat.lt_or_ge i recs.length with hlt | hge
+      · exact ih _ (i + 1) ((catchNext_spec sk recs g i hc).1 hlt).2
+      · have heq : i = recs.length := by omega
+        have := (catchNext_spec sk recs g i hc).2 heq
+        have h2 : ((catchMachine sk recs (recs.length - 1)).step g Op.next).2 = g := by
+          show (catchNext sk recs (recs.length - 1) g).2 = g
+          rw [this]
+        simpa [Machine.exec, Machine.run, h2] using ih g i hc
+    | nth k =>
+      rcases Nat.lt_or_ge i recs.length with hlt | hge
+      · exact ih _ _ ((catchNth_spec sk recs g i k hc).1 hlt).2
+      · have heq : i = recs.length := by omega
+        exact ih _ _ ((catchNth_spec sk recs g i k hc).2 heq).2
+    | len => exact ih g i hc
+
+theorem catch_len_eq_remaining (sk : Skills S) (recs : List CatchRec) (g : CatchGrad S) (i : Nat)
+    (hc : CatchCanon sk recs g i) : (catchMachine sk recs (recs.length - 1)).len g = some (recs.length - i) := catchLen_spec sk recs g i hc
+
+theorem catch_nth_processes_min (sk : Skills S) (recs : List CatchRec) (g : CatchGrad S) (i k : Nat)
+    (hc : CatchCanon sk recs g i) :
+    (i < recs.length →
+      ((catchMachine sk recs (recs.length - 1)).nth g k).1 = .some (catchValue sk recs (i + min (k + 1) (recs.length - i))) ∧
+      CatchCanon sk recs ((catchMachine sk recs (recs.length - 1)).nth g k).2 (i + min (k + 1) (recs.length - i))) ∧
+    (i = recs.length → ((catchMachine sk recs (recs.length - 1)).nth g k).1 = .none) := by
+  constructor
+  · intro hlt
+    have h := (catchNth_spec sk recs g i k hc).1 hlt
+    simp only at h
+    have e : i + min k (recs.length - i - 1) + 1 = i + min (k + 1) (recs.length - i) := by omega
+    rw [e] at h
+    exact h
+  · intro heq
+    exact ((catchNth_spec sk recs g i k hc).2 heq).1
+
+theorem catch_exhausted_stays_none (sk : Skills S) (recs : List CatchRec) (g : CatchGrad S)
+    (hc : CatchCanon sk recs g recs.length) (k : Nat) :
+    (catchMachine sk recs (recs.length - 1)).next g = (.none, g) ∧
+    ((catchMachine sk recs (recs.length - 1)).nth g k).1 = .none ∧
+    CatchCanon sk recs ((catchMachine sk recs (recs.length - 1)).nth g k).2 recs.length :=
+  ⟨(catchNext_spec sk recs g _ hc).2 rfl, ((catchNth_spec sk recs g _ k hc).2 rfl).1, ((catchNth_spec sk recs g _ k hc).2 rfl).2⟩
+
+theorem catch_nth_eq_iterated_next_partial (sk : Skills S) (recs : List CatchRec) (g : CatchGrad S)
+    (i k : Nat) (hc : CatchCanon sk recs g i) (hk : i + k + 1 ≤ recs.length) :
+    some ((catchMachine sk recs (recs.length - 1)).nth g k).1 = ((catchMachine sk recs (recs.length - 1)).nexts g (k + 1)).1.getLast? ∧
+    CatchCanon sk recs ((catchMachine sk recs (recs.length - 1)).nth g k).2 (i + k + 1) ∧
+    CatchCanon sk recs ((catchMachine sk recs (recs.length - 1)).nexts g (k + 1)).2 (i + k + 1) := by
+  have hlt : i < recs.length := by omega
+  obtain ⟨hv, hcn⟩ := (catch_nth_processes_min sk recs g i k hc).1 hlt
+  have e : i + min (k + 1) (recs.length - i) = i + k + 1 := by omega
+  rw [e] at hv hcn
+  obtain ⟨hvs, hcs⟩ := catch_nexts_spec sk recs (k + 1) g i hc (by omega)
+  refine ⟨?_, hcn, by simpa [Nat.add_assoc] using hcs⟩
+  rw [hv, hvs, List.range_succ]
+  simp
+
+theorem catch_never_panics (sk : Skills S) (recs : List CatchRec) (ops : List Op) (k : Nat) :
+    let g := (catchMachine sk recs (recs.length - 1)).exec (catchNew sk) ops
+    ((catchMachine sk recs (recs.length - 1)).nth g k).1 ≠ .panic ∧ ((catchMachine sk recs (recs.length - 1)).next g).1 ≠ .panic ∧ (catchMachine sk recs (recs.length - 1)).len g ≠ none := by
+  intro g
+  obtain ⟨i, hc⟩ := catch_reachable sk recs ops
+  refine ⟨?_, ?_, by rw [catch_len_eq_remaining sk recs g i hc]; simp⟩
+  · rcases Nat.lt_or_ge i recs.length with hlt | hge
+    · rw [((catch_nth_processes_min sk recs g i k hc).1 hlt).1]; simp
+    · have heq : i = recs.length := by have := hc.le; omega
+      rw [(catch_nth_processes_min sk recs g i k hc).2 heq]; simp
+  · rcases Nat.lt_or_ge i recs.length with hlt | hge
+    · have := ((catchNext_spec sk recs g i hc).1 hlt).1
+      show (catchNext sk recs (recs.length - 1) g).1 ≠ _
+      rw [this]; simp
+    · have heq : i = recs.length := by have := hc.le; omega
+      have := (catchNext_spec sk recs g i hc).2 heq
+      show (catchNext sk recs (recs.length - 1) g).1 ≠ _
+      rw [this]; simp
+
+/-! ## osu!mania -/
+
+theorem mania_reachable (sk : Skills S) (objs : List ManiaObj) (ops : List Op) :
+    ∃ i, ManiaCanon sk objs ((maniaMachine sk objs).exec (maniaNew sk objs) ops) i := by
+  suffices h : ∀ (g : ManiaGrad S) (i : Nat), ManiaCanon sk objs g i →
+      ∃ j, ManiaCanon sk objs ((maniaMachine sk objs).exec g ops) j from
+    h _ 0 (maniaNew_canon sk objs)
+  induction ops with
+  | nil => intro g i hc; exact ⟨i, hc⟩
+  | cons op ops ih =>
+    intro g i hc
+    have hle := hc.le
+    cases op with
+    | next =>
+      rcases Nat.lt_or_ge i objs.length with hlt | hge
+      · exact ih _ (i + 1) ((maniaNext_spec sk objs g i hc).1 hlt).2
+      · have heq : i = objs.length := by omega
+        have := (maniaNext_spec sk objs g i hc).2 heq
+        have h2 : ((maniaMachine sk objs).step g Op.next).2 = g := by
+          show (maniaNext sk objs g).2 = g
+          rw [this]
+        simpa [Machine.exec, Machine.run, h2] using ih g i hc
+    | nth k =>
+      rcases Nat.lt_or_ge i objs.length with hlt | hge
+      · exact ih _ _ ((maniaNth_spec sk objs g i k hc).1 hlt).2
+      · have heq : i = objs.length := by omega
+        exact ih _ _ ((maniaNth_spec sk objs g i k hc).2 heq).2
+    | len => exact ih g i hc
+
+theorem mania_len_eq_remaining (sk : Skills S) (objs : List ManiaObj) (g : ManiaGrad S) (i : Nat)
+    (hc : ManiaCanon sk objs g i) : (maniaMachine sk objs).len g = some (objs.length - i) := maniaLen_spec sk objs g i hc
+
+theorem mania_nth_processes_min (sk : Skills S) (objs : List ManiaObj) (g : ManiaGrad S) (i k : Nat)
+    (hc : ManiaCanon sk objs g i) :
+    (i < objs.length →
+      ((maniaMachine sk objs).nth g k).1 = .some (maniaValue sk objs (i + min (k + 1) (objs.length - i))) ∧
+      ManiaCanon sk objs ((maniaMachine sk objs).nth g k).2 (i + min (k + 1) (objs.length - i))) ∧
+    (i = objs.length → ((maniaMachine sk objs).nth g k).1 = .none) := by
+  constructor
+  · intro hlt
+    have h := (maniaNth_spec sk objs g i k hc).1 hlt
+    simp only at h
+    have e : i + min k (objs.length - i - 1) + 1 = i + min (k + 1) (objs.length - i) := by omega
+    rw [e] at h
+    exact h
+  · intro heq
+    exact ((maniaNth_spec sk objs g i k hc).2 heq).1
+
+theorem mania_exhausted_stays_none (sk : Skills S) (objs : List ManiaObj) (g : ManiaGrad S)
+    (hc : ManiaCanon sk objs g objs.length) (k : Nat) :
+    (maniaMachine sk objs).next g = (.none, g) ∧
+    ((maniaMachine sk objs).nth g k).1 = .none ∧
+    ManiaCanon sk objs ((maniaMachine sk objs).nth g k).2 objs.length :=
+  ⟨(maniaNext_spec sk objs g _ hc).2 rfl, ((maniaNth_spec sk objs g _ k hc).2 rfl).1, ((maniaNth_spec sk objs g _ k hc).2 rfl).2⟩
+
+theorem mania_nth_eq_iterated_next_partial (sk : Skills S) (objs : List ManiaObj) (g : ManiaGrad S)
+    (i k : Nat) (hc : ManiaCanon sk objs g i) (hk : i + k + 1 ≤ objs.length) :
+    some ((maniaMachine sk objs).nth g k).1 = ((maniaMachine sk objs).nexts g (k + 1)).1.getLast? ∧
+    ManiaCanon sk objs ((maniaMachine sk objs).nth g k).2 (i + k + 1) ∧
+    ManiaCanon sk objs ((maniaMachine sk objs).nexts g (k + 1)).2 (i + k + 1) := by
+  have hlt : i < objs.length := by omega
+  obtain ⟨hv, hcn⟩ := (mania_nth_processes_min sk objs g i k hc).1 hlt
+  have e : i + min (k + 1) (objs.length - i) = i + k + 1 := by omega
+  rw [e] at hv hcn
+  obtain ⟨hvs, hcs⟩ := mania_nexts_spec sk objs (k + 1) g i hc (by omega)
+  refine ⟨?_, hcn, by simpa [Nat.add_assoc] using hcs⟩
+  rw [hv, hvs, List.range_succ]
+  simp
+
+theorem mania_never_panics (sk : Skills S) (objs : List ManiaObj) (ops : List Op) (k : Nat) :
+    let g := (maniaMachine sk objs).exec (maniaNew sk objs) ops
+    ((maniaMachine sk objs).nth g k).1 ≠ .panic ∧ ((maniaMachine sk objs).next g).1 ≠ .panic ∧ (maniaMachine sk objs).len g ≠ none := by
+  intro g
+  obtain ⟨i, hc⟩ := mania_reachable sk objs ops
+  refine ⟨?_, ?_, by rw [mania_len_eq_remaining sk objs g i hc]; simp⟩
+  · rcases Nat.lt_or_ge i objs.length with hlt | hge
+    · rw [((mania_nth_processes_min sk objs g i k hc).1 hlt).1]; simp
+    · have heq : i = objs.length := by have := hc.le; omega
+      rw [(mania_nth_processes_min sk objs g i k hc).2 heq]; simp
+  · rcases Nat.lt_or_ge i objs.length with hlt | hge
+    · have := ((maniaNext_spec sk objs g i hc).1 hlt).1
+      show (maniaNext sk objs g).1 ≠ _
+      rw [this]; simp
+    · have heq : i = objs.length := by have := hc.le; omega
+      have := (maniaNext_spec sk objs g i hc).2 heq
+      show (maniaNext sk objs g).1 ≠ _
+      rw [this]; simp
+
+/-! ## osu!taiko — protocol violations of the code (known findings), as `decide`d witnesses -/
+
+def listSkills : Skills (List Nat) := ⟨[], fun s i => s ++ [i]⟩
+
+/-- On `[hit, non-hit, hit, hit]` the calculator announces 3 values but `next` yields 4, and
+after exhaustion `len()` underflows (`total_hits - idx` with `idx = total_hits + 1`). -/
+theorem taiko_len_underflow :
+    let objs := [true, false, true, true]
+    let m := taikoMachine listSkills objs
+    m.len (taikoNew listSkills objs) = some 3 ∧
+    ((m.nexts (taikoNew listSkills objs) 4).1.map (fun r => decide (r ≠ Res.none))) = [true, true, true, true] ∧
+    m.len (m.nexts (taikoNew listSkills objs) 4).2 = none := by
+  decide
 
 /-- Non-vacuity: a concrete three-object map, after `next; nth 0`, is in the canonical state 2. -/
 example :
